@@ -58,12 +58,16 @@ class pyBQM:
         return new
 
     def add_linear(self, v: Variable, bias: Any):
-        self._adj.setdefault(v, dict())
         try:
             zero = type(bias)()  # try to preserve the type
         except TypeError:
             zero = 0  # sometimes it cannot be constructed with no arguments
-        self._adj[v][v] = self._adj[v].get(v, zero) + bias
+        neighborhood = self._adj.get(v)
+        if neighborhood is None:
+            # the addition can fail, in which case the variable is not added
+            self._adj[v] = {v: zero + bias}
+        else:
+            neighborhood[v] = neighborhood.get(v, zero) + bias
 
     def add_linear_equality_constraint(self, *args, **kwargs):
         raise NotImplementedError  # defer to caller
